@@ -72,6 +72,7 @@ STRENGTHENED = {
 # why a change is (still) not caught
 NOT_CAUGHT = {
     "C19-10": "not a violation of C19 as stated: the change sits in the transaction buffer that the embedded transaction and the service's BatchWrite/TxPut share, so service and embedded results stay equal (both wrong; the check counts 'embedded differs from the model' as inconclusive, the embedded semantics being other properties' business). The same slip was seeded for C03 and C01 (C03-3, C01-7) and is caught there; C01 and C03 also catch this patch",
+    "C19-12": "not a violation of C19 as stated, like C19-10: the change sits in the transaction buffer (Buffer.Get) that the embedded transaction and the service's TxGet share, so the service keeps behaving exactly like the embedded API (both read the transaction's own empty-valued put as absent). It is the defect D11 again; C01 catches this patch (regression replay d11-tx-reads-own-empty-put.json and the generated programs, `ryw@tx`), and C03/C04 read a transaction's own writes as well",
     "C13-7": "needs an atomic multi-entry batch (transaction commit / batch write) pushed by the primary; primary transactions are excluded by construction while the open finding D18 stands (replication of transactions is broken on the unchanged tree already)",
     "C15-8": "needs a multi-entry batch at the tail of a > 100 entry backlog, i.e. primary transactions: excluded by construction while D18 is open (flag primary_tx, also_excludes_in C15); no way to reach the unbounded loop without entries that share a sequence number",
 }
